@@ -1,5 +1,6 @@
 import re
 from sqv.driver import Obligation
+from sqv.props.c06 import lrc_precheck, lrc_obligations
 
 CANDIDATES = ['a', 'ab', '_1', '%a b%', '%.%', 'if', '1', '12', '1.5', '"a"', "'a'", 'r"a"', '"a\\\nb"', "'\\\n'", '"\\n"', '""',
               '# c', '#', '#a;b', '(', ')', '[', ']', '{', '}', '"\\\n\\\n"', 'for', 'x9']
@@ -31,7 +32,9 @@ def plan(ctx):
                           desc="message contains the token text and the token's OWN line"))
     obs.append(Obligation("p_error.eof", "xh", "c20", "p_error_eof", timeout=T, extra={"format_stub": False}, bounds="-",
                           desc="p_error(None) reports an unexpected end of input"))
+    obs += lrc_obligations(ctx, ["error_token"], prefix="lrc.")
     return {
+        "precheck": lrc_precheck,
         "obligations": obs, "uncovered": uncovered,
         "explanation": "CrossHair (z3) symbolic execution of the real lexer rule functions from an arbitrary (line, bracket depth) "
                        "state satisfying the invariant 'lineno = 1 + line feeds before the offset', and of p_error.",
